@@ -437,7 +437,16 @@ class Unit:
         if lid in self.lambdas:
             return self.lambdas[lid][0], self.lambdas[lid][3]
         rec = lam['inner'][0]
-        op = [c for c in rec['inner'] if c.get('kind') == 'CXXMethodDecl' and c.get('name') == 'operator()'][0]
+        ops = [c for c in rec['inner'] if c.get('kind') == 'CXXMethodDecl' and c.get('name') == 'operator()']
+        if not ops:
+            # generic lambda (auto parameter): the call operator is a template; take its (single) instantiation
+            for t in rec['inner']:
+                if t.get('kind') == 'FunctionTemplateDecl' and t.get('name') == 'operator()':
+                    ops = [c for c in t.get('inner', []) if c.get('kind') == 'CXXMethodDecl' and any(x.get('kind') == 'CompoundStmt' for x in c.get('inner', []))
+                           and any(x.get('kind') == 'TemplateArgument' for x in c.get('inner', []))]
+            if len(ops) != 1:
+                raise Unsupported('generic lambda with %d instantiations' % len(ops))
+        op = ops[0]
         fields = [c for c in rec['inner'] if c.get('kind') == 'FieldDecl']
         cap_inits = [c for c in lam['inner'][1:] if c.get('kind') != 'CompoundStmt']
         if len(fields) != len(cap_inits):
